@@ -10,6 +10,10 @@ BUILT = {
          "The step from expression text to the AST is covered by the parser theorems of C03/C04 and by this check's correspondence run (Go AST = specification's compile on every generated tree)."),
  "C02": ("Theorems: interpreter = eval on all projection forms for every object iteration order; characterisation of the five projection forms; object-wildcard content independent of iteration order (Permutation).",
          "Projection scope (where a right-hand side ends) is a parser statement: C03."),
+ "C03": ("Theorems: the Pratt tables regenerated from parser.go are exactly the specification's precedence levels at every token and every parse call site, the levels are ordered as the property lists them, the projection stop constant, parentheses are transparent, left associativity at the level of wp. The statement parse(render e) = compile e for every well-precedenced tree is NOT yet a theorem (Pratt lemma in progress): it is covered by the correspondence run (library AST = compile tree on every generated well-precedenced tree, in minimal, fully parenthesised and whitespace spellings).",
+         "Partial: see text; the tie of the precedence rules to the parser's control flow is by correspondence, the tie of the tables by regenerated theorem."),
+ "C04": ("Theorems: Compile always returns (accept or reject at compile time) for every byte string; whatever is accepted is the AST of an expression tree of the grammar's tree language (no malformed AST, calls only on unquoted names, expression references only as arguments, multi-selects non-empty ...), and searching it is evaluating that tree. The converse (every grammatical sentence is accepted) and 'the accepted token sequence is a rendering of that tree' are not yet theorems: covered by the correspondence run (exhaustive token strings to a length bound, mutated valid expressions, fuzz corpus, a list of grammatical / ungrammatical expectations written from the grammar).",
+         "Partial: soundness of shape is proved, language equality is tested."),
  "C05": ("Theorems: the lexer on any bytes returns (tokens ending in the only EOF, positions in range) and never panics; the parser's cursor never leaves the token list and fuel 2*tokens+2 suffices; whatever compiles is the AST of an expression tree; Search on any bytes and any data returns a value or an error, never a panic. All unchecked Go operations are kept unchecked in the model.",
          "PARTIAL by nature: real time, memory and stack depth are runtime facts outside the model; the harness runs long inputs (to 64 KiB) on the library only and every case under a crash/hang watchdog."),
  "C07": ("Theorems: isFalse = the five-case truth definition; ||, &&, ! return/short-circuit as specified, also when the unused operand would fail; == != deep equality, never across types; ordering comparators on two numbers else null.",
